@@ -73,6 +73,11 @@ structure State where
   badUnique : Bool := false   -- exclusive access granted while another reference existed
   earlyFree : Bool := false   -- freed while a reference was still held
   underflow : Bool := false   -- `biased_counter - 1` with a zero counter
+  -- ghost aggregates (kept equal to the sums over `threads`, see `SumInv` in Lemmas.lean)
+  gH : Nat := 0               -- Σ held
+  gT : Nat := 0               -- Σ temp
+  gQ : Nat := 0               -- Σ (regQ + unregQ): references owned by queue entries
+  gP : Nat := 0               -- Σ pend pc: queue entries a thread is handing over / has drained
 deriving Repr, Inhabited
 
 def init : State := {}
@@ -102,37 +107,61 @@ def PC.site : PC → String
   | .uwLoadOwn => "unwrap.load" | .uwFree _ => "unwrap.free"
   | .mgLoad .. => "merge.load" | .mgCas .. => "merge.cas" | .mgSetNone .. => "merge.setnone"
 
+def Ret.pend : Ret → Nat
+  | .op => 0
+  | .merge rest _ _ => rest
+
+/-- Queue entries that the thread parked at this pc still has to enqueue / merge. -/
+def PC.pend : PC → Nat
+  | .mgLoad rest _ _ | .mgCas rest _ _ _ => rest + 1
+  | .mgSetNone rest _ _ => rest
+  | .enq r => 1 + r.pend
+  | .dfLoad r | .dfCas r _ | .dfSetNone r | .dsLoad r | .dsCas r _ | .free r => r.pend
+  | _ => 0
+
 def sumHeld (l : List Thread) : Nat := (l.map (·.held)).sum
 def sumTemp (l : List Thread) : Nat := (l.map (·.temp)).sum
 def sumQ (l : List Thread) : Nat := (l.map (fun t => t.regQ + t.unregQ)).sum
+def sumP (l : List Thread) : Nat := (l.map (fun t => t.pc.pend)).sum
 
 /-- Number of counted references that exist (ghost). -/
-def State.total (s : State) : Nat := sumHeld s.threads + sumTemp s.threads + sumQ s.threads
+def State.total (s : State) : Nat := s.gH + s.gT + s.gQ
 
-def State.upd (s : State) (t : Tid) (f : Thread → Thread) : State :=
-  { s with threads := s.threads.modify t f }
+/-- Replace thread `t` (currently `th`) by `th'`; the ghost aggregates move by the difference. -/
+def State.put (s : State) (t : Tid) (th th' : Thread) : State :=
+  { s with threads := s.threads.set t th',
+           gH := s.gH + th'.held - th.held,
+           gT := s.gT + th'.temp - th.temp,
+           gQ := s.gQ + (th'.regQ + th'.unregQ) - (th.regQ + th.unregQ),
+           gP := s.gP + th'.pc.pend - th.pc.pend }
 
 /-- Every access to the object's memory goes through `touch`: after the free it is a violation. -/
 def State.touch (s : State) : State := if s.alive then s else { s with uaf := true }
 
-/-- Park thread `t` at `pc` and report the yield site. -/
-def park (s : State) (t : Tid) (pc : PC) : State × Out :=
-  (s.upd t (fun th => { th with pc := pc }), .yield pc.site)
+/-- Park thread `t` at `pc` (its other fields as in `th'`) and report the yield site. -/
+def park (s : State) (t : Tid) (th th' : Thread) (pc : PC) : State × Out :=
+  (s.put t th { th' with pc := pc }, .yield pc.site)
 
 /-- Complete the user operation of thread `t`. -/
-def finish (s : State) (t : Tid) (res : String) : State × Out :=
-  (s.upd t (fun th => { th with pc := .idle, shown := th.held }), .done res)
+def finish (s : State) (t : Tid) (th th' : Thread) (res : String) : State × Out :=
+  (s.put t th { th' with pc := .idle, shown := th'.held }, .done res)
 
 /-- The decrement protocol of `t` is over; go on with what it was part of. -/
-def ret (s : State) (t : Tid) : Ret → State × Out
-  | .op => finish s t "ok"
+def ret (s : State) (t : Tid) (th th' : Thread) : Ret → State × Out
+  | .op => finish s t th th' "ok"
   | .merge 0 n lk =>
       -- `run_explicit_merge` (guard held) reports the number of entries, `finish_thread_merge` nothing
-      finish (if lk then { s with lock := none } else s) t (if lk then toString n else "ok")
-  | .merge (rest + 1) n lk => park s t (.mgLoad rest n lk)
+      finish (if lk then { s with lock := none } else s) t th th' (if lk then toString n else "ok")
+  | .merge (rest + 1) n lk => park s t th th' (.mgLoad rest n lk)
 
 /-- `usize` view of an `i32` counter (`count as _` in `strong_count`). -/
 def asUsize (i : Int) : Nat := if i < 0 then (i + 18446744073709551616).toNat else i.toNat
+
+/-- The deallocation shared by `drop_contents_and_maybe_box` and `try_unwrap`; `tot` is the number
+of counted references that exist at that moment. -/
+def State.dealloc (s : State) (tot : Nat) : State :=
+  let s := if tot > 0 then { s with earlyFree := true } else s
+  { s with alive := false, frees := s.frees + 1, drops := s.drops + 1 }
 
 /-- One line of the schedule: thread `t` performs `a`.  `none`: the line is not executable
 (no such thread, thread busy / not parked, no reference to operate on, dashmap guard taken). -/
@@ -153,38 +182,37 @@ def step (s : State) (t : Tid) (a : Act) : Option (State × Out) :=
       if s.created then none else
       let s := { s with created := true, owner := some t, biased := 1, w := ⟨0, false, false⟩,
                         alive := true }
-      some (finish (s.upd t (fun th => { th with held := th.held + 1 })) t "ok")
+      some (finish s t th { th with held := th.held + 1 } "ok")
   | .move u, .idle =>
       if th.held = 0 ∨ u = t then none else
       match s.threads[u]? with
       | none => none
       | some tu =>
         if tu.pc ≠ .idle then none else
-        let s := s.upd t (fun th => { th with held := th.held - 1, shown := th.held - 1 })
-        let s := s.upd u (fun th => { th with held := th.held + 1, shown := th.held + 1 })
+        let s := s.put t th { th with held := th.held - 1, shown := th.held - 1 }
+        let s := s.put u tu { tu with held := tu.held + 1, shown := tu.held + 1 }
         some (s, .done "ok")
   | .clone, .idle =>
       if th.held = 0 then none else
       let s := s.touch
       if s.owner = some t then
         -- fast_increment
-        some (finish ({ s with biased := s.biased + 1 }.upd t
-                (fun th => { th with held := th.held + 1 })) t "ok")
-      else some (park s t .incLoad)
+        some (finish { s with biased := s.biased + 1 } t th { th with held := th.held + 1 } "ok")
+      else some (park s t th th .incLoad)
   | .drop, .idle =>
       if th.held = 0 then none else
       let s := s.touch
       if s.owner = some t then
         -- fast_decrement: the reference is gone as soon as the biased counter is written
         let s := if s.biased = 0 then { s with underflow := true } else s
-        let s := { s with biased := s.biased - 1 }.upd t (fun th => { th with held := th.held - 1 })
-        if s.biased > 0 then some (finish s t "ok") else some (park s t (.dfLoad .op))
+        let s := { s with biased := s.biased - 1 }
+        let th' := { th with held := th.held - 1 }
+        if s.biased > 0 then some (finish s t th th' "ok") else some (park s t th th' (.dfLoad .op))
       else
         -- slow_decrement: the reference is in flight until the compare-exchange succeeds
-        some (park (s.upd t (fun th => { th with held := th.held - 1, temp := th.temp + 1 })) t
-                (.dsLoad .op))
-  | .unique, .idle => if th.held = 0 then none else some (park s t .uqOwner)
-  | .unwrap, .idle => if th.held = 0 then none else some (park s t .uwOwner)
+        some (park s t th { th with held := th.held - 1, temp := th.temp + 1 } (.dsLoad .op))
+  | .unique, .idle => if th.held = 0 then none else some (park s t th th .uqOwner)
+  | .unwrap, .idle => if th.held = 0 then none else some (park s t th th .uwOwner)
   | .count, .idle =>
       if th.held = 0 then none else
       let s := s.touch
@@ -194,126 +222,127 @@ def step (s : State) (t : Tid) (a : Act) : Option (State × Out) :=
           | none => 0
           | some o => if o = t then (s.biased : Int) else 2
         else s.w.cnt
-      some (finish s t (toString (asUsize c)))
+      some (finish s t th th (toString (asUsize c)))
   | .register, .idle =>
       if s.lock.isSome then none else
-      some (finish (s.upd t (fun th => { th with registered := true })) t "ok")
+      some (finish s t th { th with registered := true } "ok")
   | .merge, .idle =>
       -- run_explicit_merge: drains `unregistered[Some t]` and `map[Some t]`
       if s.lock.isSome then none else
       let n := th.unregQ + th.regQ
-      let s := s.upd t (fun th => { th with unregQ := 0, regQ := 0, temp := th.temp + n })
+      let th' := { th with unregQ := 0, regQ := 0, temp := th.temp + n }
       match n with
-      | 0 => some (finish s t "0")
-      | k + 1 => some (park { s with lock := some t } t (.mgLoad k n true))
+      | 0 => some (finish s t th th' "0")
+      | k + 1 => some (park { s with lock := some t } t th th' (.mgLoad k n true))
   | .exit, .idle =>
       -- finish_thread_merge: removes the thread's entry of `QUEUE.map` and merges what was in it
       if s.lock.isSome then none else
       let n := th.regQ
-      let s := s.upd t (fun th => { th with regQ := 0, registered := false, temp := th.temp + n })
+      let th' := { th with regQ := 0, registered := false, temp := th.temp + n }
       match n with
-      | 0 => some (finish s t "ok")
-      | k + 1 => some (park s t (.mgLoad k 0 false))
+      | 0 => some (finish s t th th' "ok")
+      | k + 1 => some (park s t th th' (.mgLoad k 0 false))
   -- ── one shared access of a parked thread ─────────────────────────────────────────────────
-  | .step, .incLoad => let s := s.touch; some (park s t (.incCas s.w))
+  | .step, .incLoad => let s := s.touch; some (park s t th th (.incCas s.w))
   | .step, .incCas old =>
       let s := s.touch
       if s.w = old then
-        some (finish ({ s with w := { old with cnt := old.cnt + 1 } }.upd t
-                (fun th => { th with held := th.held + 1 })) t "ok")
-      else some (park s t (.incCas s.w))
-  | .step, .dfLoad r => let s := s.touch; some (park s t (.dfCas r s.w))
+        some (finish { s with w := { old with cnt := old.cnt + 1 } } t th
+                { th with held := th.held + 1 } "ok")
+      else some (park s t th th (.incCas s.w))
+  | .step, .dfLoad r => let s := s.touch; some (park s t th th (.dfCas r s.w))
   | .step, .dfCas r old =>
       let s := s.touch
       if s.w = old then
         -- merged := true, and one temporary reference for the owner
-        some (park ({ s with w := { old with merged := true, cnt := old.cnt + 1 } }.upd t
-                (fun th => { th with temp := th.temp + 1 })) t (.dfSetNone r))
-      else some (park s t (.dfCas r s.w))
+        some (park { s with w := { old with merged := true, cnt := old.cnt + 1 } } t th
+                { th with temp := th.temp + 1 } (.dfSetNone r))
+      else some (park s t th th (.dfCas r s.w))
   | .step, .dfSetNone r =>
       let s := s.touch
-      some (park { s with owner := none } t (.dsLoad r))
-  | .step, .dsLoad r => let s := s.touch; some (park s t (.dsCas r s.w))
+      some (park { s with owner := none } t th th (.dsLoad r))
+  | .step, .dsLoad r => let s := s.touch; some (park s t th th (.dsCas r s.w))
   | .step, .dsCas r old =>
       let s := s.touch
       if s.w = old then
-        if old.cnt ≤ 0 ∧ ¬ old.queued ∧ ¬ old.merged then
+        if old.cnt ≤ 0 ∧ old.queued = false ∧ old.merged = false then
           -- hand the reference to the owner's queue
-          some (park { s with w := { old with queued := true } } t (.enq r))
+          some (park { s with w := { old with queued := true } } t th th (.enq r))
         else
           let new : Word := { old with cnt := old.cnt - 1 }
-          let s := { s with w := new }.upd t (fun th => { th with temp := th.temp - 1 })
-          if new.merged ∧ new.cnt = 0 then some (park s t (.free r)) else some (ret s t r)
-      else some (park s t (.dsCas r s.w))
+          let s := { s with w := new }
+          let th' := { th with temp := th.temp - 1 }
+          if new.merged = true ∧ new.cnt = 0 then some (park s t th th' (.free r))
+          else some (ret s t th th' r)
+      else some (park s t th th (.dsCas r s.w))
   | .step, .enq r =>
       if s.lock.isSome then none else
       let s := s.touch
       match s.owner with
-      | none => some (park s t (.dsLoad r))      -- nobody to hand it to: drop it the normal way
+      | none => some (park s t th th (.dsLoad r))   -- nobody to hand it to: drop it the normal way
       | some k =>
+          -- the reference moves from the dropping thread into the queue of thread `k`
+          let (s, o) := ret s t th { th with temp := th.temp - 1 } r
           match s.threads[k]? with
           | none => none
           | some tk =>
-            let s := s.upd t (fun th => { th with temp := th.temp - 1 })
-            let s := if tk.registered then s.upd k (fun th => { th with regQ := th.regQ + 1 })
-                     else s.upd k (fun th => { th with unregQ := th.unregQ + 1 })
-            some (ret s t r)
+            some (s.put k tk (if tk.registered then { tk with regQ := tk.regQ + 1 }
+                              else { tk with unregQ := tk.unregQ + 1 }), o)
   | .step, .free r =>
       let s := s.touch
-      let s := if s.total > 0 then { s with earlyFree := true } else s
-      some (ret { s with alive := false, frees := s.frees + 1, drops := s.drops + 1 } t r)
+      some (ret (s.dealloc s.total) t th th r)
   | .step, .uqOwner =>
       let s := s.touch
       match s.owner with
-      | none => some (park s t .uqLoadNone)
+      | none => some (park s t th th .uqLoadNone)
       | some o =>
           if o = t then
-            if s.biased = 1 then some (park s t .uqLoadOwn) else some (finish s t "false")
-          else some (finish s t "false")
+            if s.biased = 1 then some (park s t th th .uqLoadOwn) else some (finish s t th th "false")
+          else some (finish s t th th "false")
   | .step, .uqLoadNone =>
       let s := s.touch
       let u := decide (s.w.cnt = 1)
-      let s := if u ∧ s.total ≠ 1 then { s with badUnique := true } else s
-      some (finish s t (toString u))
+      let s := if u = true ∧ s.total ≠ 1 then { s with badUnique := true } else s
+      some (finish s t th th (toString u))
   | .step, .uqLoadOwn =>
       let s := s.touch
       let u := decide (s.w.cnt = 0)
-      let s := if u ∧ s.total ≠ 1 then { s with badUnique := true } else s
-      some (finish s t (toString u))
+      let s := if u = true ∧ s.total ≠ 1 then { s with badUnique := true } else s
+      some (finish s t th th (toString u))
   | .step, .uwOwner =>
       let s := s.touch
       match s.owner with
-      | none => some (park s t .uwLoadNone)
+      | none => some (park s t th th .uwLoadNone)
       | some o =>
           if o = t then
-            if s.biased = 1 then some (park s t .uwLoadOwn) else some (finish s t "none")
-          else some (finish s t "none")
-  | .step, .uwLoadNone => let s := s.touch; some (park s t (.uwCas s.w))
+            if s.biased = 1 then some (park s t th th .uwLoadOwn) else some (finish s t th th "none")
+          else some (finish s t th th "none")
+  | .step, .uwLoadNone => let s := s.touch; some (park s t th th (.uwCas s.w))
   | .step, .uwCas old =>
       let s := s.touch
       if s.w = { old with cnt := 1 } then
-        some (park ({ s with w := { old with cnt := 0 } }.upd t
-                (fun th => { th with held := th.held - 1 })) t (.uwFree false))
-      else some (finish s t "none")
+        some (park { s with w := { old with cnt := 0 } } t th { th with held := th.held - 1 }
+                (.uwFree false))
+      else some (finish s t th th "none")
   | .step, .uwLoadOwn =>
       let s := s.touch
-      if s.w.cnt ≠ 0 then some (finish s t "none")
-      else some (park (s.upd t (fun th => { th with held := th.held - 1 })) t (.uwFree true))
+      if s.w.cnt ≠ 0 then some (finish s t th th "none")
+      else some (park s t th th (.uwFree true))
   | .step, .uwFree own =>
       let s := s.touch
-      let s := if s.total > 0 then { s with earlyFree := true } else s
-      let _ := own
-      some (finish { s with alive := false, frees := s.frees + 1, drops := s.drops + 1 } t "some:feed")
-  | .step, .mgLoad rest n lk => let s := s.touch; some (park s t (.mgCas rest n lk s.w))
+      -- owner path: the reference is given up together with the deallocation
+      let d := if own then 1 else 0
+      some (finish (s.dealloc (s.total - d)) t th { th with held := th.held - d } "some:feed")
+  | .step, .mgLoad rest n lk => let s := s.touch; some (park s t th th (.mgCas rest n lk s.w))
   | .step, .mgCas rest n lk old =>
       let s := s.touch
       if s.w = old then
-        some (park { s with w := { old with cnt := old.cnt + s.biased, merged := true } } t
+        some (park { s with w := { old with cnt := old.cnt + s.biased, merged := true } } t th th
                 (.mgSetNone rest n lk))
-      else some (park s t (.mgCas rest n lk s.w))
+      else some (park s t th th (.mgCas rest n lk s.w))
   | .step, .mgSetNone rest n lk =>
       let s := s.touch
-      some (park { s with owner := none } t (.dsLoad (.merge rest n lk)))
+      some (park { s with owner := none } t th th (.dsLoad (.merge rest n lk)))
   | _, _ => none
 
 /-- Run a schedule; stops at the first line that is not executable. -/
